@@ -68,7 +68,7 @@ func vCheckSearch(s *baseSeries, n int, rect Rect, tag string) {
 	segOK := true
 	conts := make([]bool, n+1)
 	for i := range conts {
-		conts[i] = vB(tag + "cont" + vDigits[i])
+		conts[i] = vB(tag + "cont" + vItoa(i))
 	}
 	stopped := false
 	afterStop := false
@@ -189,6 +189,12 @@ func H_Search_Template(p []int) {
 	rect := vRectAny("q")
 	s := makeSeries(pts, true, false, &IndexOptions{Kind: vKind(kind), MinPoints: 1})
 	ns := s.NumSegments()
+	if len(p) > 3 && p[3] == 1 {
+		// the full search contract on the concrete layout, with a nondeterministic stop at every segment
+		vCheckSearch(&s, ns, rect, "t")
+		vCover("template.done")
+		return
+	}
 	count := 0
 	bad := false
 	s.Search(rect, func(seg Segment, idx int) bool {
@@ -253,4 +259,11 @@ func H_Search_MovedTemplate(p []int) {
 	vAssert(!bad, "C04.moved-template-index-and-segment")
 	vAssert(count == want, "C04.moved-template-count")
 	vCover("movedtemplate.done")
+}
+
+func vItoa(i int) string {
+	if i < len(vDigits) {
+		return vDigits[i]
+	}
+	return vItoa(i/10) + vDigits[i%10]
 }
